@@ -85,7 +85,11 @@ class SMUserList(UserList, ABC):
         pass
 
     def _import(self, x, check=True):
-        if not check or self.isvalid(x, check=check):
+        if not check:
+            # the value is not tested, but an array of another shape is not a
+            # value of this class at all (it may be another argument form)
+            return x if x.shape == self.shape else None
+        if self.isvalid(x, check=check):
             return x
         else:
             return None
